@@ -122,6 +122,15 @@ def replay(pid, path):
         return 1
     header, name, ops = split_opfile(path)
     work = os.path.join(CACHE, 'replay-%d' % os.getpid())
+    if 'http on' in header:
+        # real-transport history (C06): re-run on the implementation; the judgement is in the file's first line
+        _, impl, extras = run_both(header, [(name, ops)], work, impl_only=True)
+        shutil.rmtree(work, ignore_errors=True)
+        print(open(path).readline().rstrip())
+        print('impl:')
+        print('\n'.join(impl.get(name, [])))
+        print('VIOLATION property=%s replay=%s' % (pid, path))
+        return 1
     model, impl, extras = run_both(header, [(name, ops)], work)
     shutil.rmtree(work, ignore_errors=True)
     print('model:')
